@@ -267,7 +267,7 @@ def main(pkg, arg):
 def run_subprocess_generation(job: dict, hashseed: Optional[int] = None, timeout: int = 120) -> dict:
     """Same as generate() but in a real fresh interpreter so PYTHONHASHSEED can be set (C10 replay)."""
     env = dict(os.environ)
-    env["PYTHONPATH"] = "/verif"
+    env["PYTHONPATH"] = "/verif" + (":" + os.environ["VERIF_REPO"] if os.environ.get("VERIF_REPO") else "")
     if hashseed is not None:
         env["PYTHONHASHSEED"] = str(hashseed)
     p = subprocess.run(
